@@ -86,8 +86,76 @@ def rule_tbl(c, prog):
             c.violation("C01.tbl", f"encarm|{t}", f"no encoder arm for Type::{t}", efn.sp, instance=f"encarm:{t}")
 
 
+def rule_ref(c, prog):
+    R = "C01.ref"
+    c.rule(R, "every reference written by the binary serializer goes through the id_to_referent map with the null sentinel -1 as the default for targets outside the written set; every reference read goes through instances_by_ref with Ref::none() as the default")
+    n = 0
+    for fn in prog.lib_fns():
+        if fn.crate != "rbx_binary" or fn.body is None or "serializer::state" not in fn.path:
+            continue
+        for x in core.walk_fn(fn):
+            if x.get("k") == "MethodCall" and x["m"] == "get" and core.place_root(x["recv"]) == ("self", ["id_to_referent"]):
+                n += 1
+                inst = f"{fn.path}|{core.fingerprint(x['args'][0], 3)}"
+                dflt = default_of(fn, x)
+                if dflt == -1:
+                    c.ok(R, inst)
+                else:
+                    c.violation(R, f"{fn.path.rsplit('::', 1)[-1]}|{core.fingerprint(x['args'][0], 3)}|default={dflt}", f"{fn.path}: a reference looked up with id_to_referent.get({core.fingerprint(x['args'][0], 3)}) falls back to `{dflt}` instead of the null referent -1: a reference to an instance outside the written set is written as a valid referent (0 = the first instance) and comes back pointing at the wrong instance", core.loc(x), instance=inst)
+            if x.get("k") == "Index" and core.place_root(x["l"]) == ("self", ["id_to_referent"]):
+                n += 1
+                c.ok(R, f"{fn.path}|index")     # indexing: keys come from relevant_instances (same-source, C03.count)
+    c.floor(R, n, 4, "id_to_referent lookups")
+    dn = 0
+    for fn in prog.lib_fns():
+        if fn.crate != "rbx_binary" or fn.body is None or "deserializer::state" not in fn.path:
+            continue
+        for x in core.walk_fn(fn):
+            if x.get("k") == "MethodCall" and x["m"] == "get" and core.place_root(x["recv"]) == ("self", ["instances_by_ref"]):
+                dn += 1
+                inst = f"{fn.path}|read|{core.fingerprint(x['args'][0], 3)}"
+                dflt = default_of(fn, x)
+                if dflt == "Ref::none":
+                    c.ok(R, inst)
+                else:
+                    c.violation(R, f"read|{core.fingerprint(x['args'][0], 3)}|default={dflt}", f"{fn.path}: a referent read from the file and missing from instances_by_ref falls back to `{dflt}` instead of Ref::none()", core.loc(x), instance=inst)
+    c.floor(R, dn, 2, "instances_by_ref reference lookups")
+
+
+def default_of(fn, get_node):
+    """the value used when `get_node` (an Option-returning lookup) is None: from `if let Some(..) = get {..} else {..}` or `.copied().unwrap_or(d)`"""
+    for n in core.walk_fn(fn):
+        if n.get("k") == "If" and core.strip(n["c"]).get("k") == "LetExpr" and core.strip(core.strip(n["c"])["init"]) is get_node and "f" in n:
+            els = n["f"]
+            vals = []
+            for x in core.walk(els):
+                if x.get("k") == "MethodCall" and x["m"] in ("push", "push_back") and x["args"]:
+                    vals.append(core.lit_value(x["args"][0]))
+                if x.get("k") == "Call" and (core.callee(x) or "").endswith("referent::Ref::none"):
+                    vals.append("Ref::none")
+            tail = core.strip(els)
+            if tail.get("k") == "Block" and "expr" in tail["b"]:
+                v = core.lit_value(tail["b"]["expr"])
+                if v is not None:
+                    vals.append(v)
+            return vals[0] if len(vals) == 1 else (vals or "?")
+        if n.get("k") == "MethodCall" and n["m"] in ("unwrap_or", "unwrap_or_default", "unwrap_or_else", "map_or"):
+            r = core.strip(n["recv"])
+            while r.get("k") == "MethodCall" and r["m"] in ("copied", "cloned", "map"):
+                r = core.strip(r["recv"])
+            if r is get_node:
+                if n["m"] == "unwrap_or":
+                    v = core.lit_value(n["args"][0])
+                    return v if v is not None else core.fingerprint(n["args"][0], 3)
+                if n["m"] == "unwrap_or_default":
+                    return "Default::default() (0)"
+                return core.fingerprint(n, 3)
+    return "?"
+
+
 def run(c, prog):
     rule_tbl(c, prog)
+    rule_ref(c, prog)
     from . import C01_rot, C01_alg, C01_arm
     C01_rot.run(c, prog)
     C01_alg.run(c, prog)
